@@ -954,13 +954,13 @@ func main() {
 		contains(dec, `ufs = unknownFieldsPool\.Get\(\)\.\(\*unknownFields\) defer unknownFieldsPool\.Put\(ufs\) ufs\.Reset\(\)`) &&
 		contains(dec, `for _, f := range sd\.requiredFieldIDs \{ bs\.unset\(f\) \}`)
 	w("  scratchPooledAndCleared := %v\n", poolOK)
-	w("  rollbackOnFailedBuild := %v\n", contains(csd, `if err != nil \{ rollbackBuild\(\) return nil, err \}`))
+	w("  rollbackOnFailedBuild := %v\n", contains(csd, `built := false defer func\(\) \{ if !built \{ rollbackBuild\(\) \} \}\(\) sd, err := newStructDescAndPrefetch\(rt\) if err != nil \{ return nil, err \} built = true sds\.Set\(abiType, sd\)`))
 	// the build-cache state machine of BuildCache.lean, statement by statement
 	rb := findFunc(rf, "rollbackBuild")
 	nsp := findFunc(rf, "newStructDescAndPrefetch")
 	fsd := findFunc(rf, "fetchStructDesc")
 	psd := findFunc(rf, "prefetchSubStructDesc")
-	proto := contains(csd, `if sd := sds\.Get\(abiType\); sd != nil \{ return sd, nil \} buildCached, buildLinked = buildCached\[:0\], buildLinked\[:0\] sd, err := newStructDescAndPrefetch\(rt\) if err != nil \{ rollbackBuild\(\) return nil, err \} sds\.Set\(abiType, sd\)`) &&
+	proto := contains(csd, `if sd := sds\.Get\(abiType\); sd != nil \{ return sd, nil \} buildCached, buildLinked = buildCached\[:0\], buildLinked\[:0\] built := false defer func\(\) \{ if !built \{ rollbackBuild\(\) \} \}\(\) sd, err := newStructDescAndPrefetch\(rt\) if err != nil \{ return nil, err \} built = true sds\.Set\(abiType, sd\)`) &&
 		contains(rb, `for _, t := range buildCached \{ delete\(prefetchStructDescCache, t\) \} for _, t := range buildLinked \{ t\.Sd = nil \}`) &&
 		contains(nsp, `\{ if sd := prefetchStructDescCache\[t\]; sd != nil \{ return sd, nil \} sd, err := newStructDesc\(t\) if err != nil \{ return nil, err \} prefetchStructDescCache\[t\] = sd buildCached = append\(buildCached, t\) if err := prefetchSubStructDesc\(sd\); err != nil \{ delete\(prefetchStructDescCache, t\) return nil, err \} return sd, nil \}`) &&
 		contains(fsd, `if t\.T == tMAP \{ err := fetchStructDesc\(t\.K\) if err != nil \{ return err \} return fetchStructDesc\(t\.V\) \} if t\.T == tLIST \|\| t\.T == tSET \{ return fetchStructDesc\(t\.V\) \} if t\.T != tSTRUCT \|\| t\.Sd != nil \{ return nil \} sd, err := newStructDescAndPrefetch\(t\.RT\) if err != nil \{ return err \} t\.Sd = sd buildLinked = append\(buildLinked, t\) return nil`) &&
